@@ -21,12 +21,37 @@ VARIABLE i
 B2N(b) == IF b THEN 1 ELSE 0
 PairSafe(ev) == ev.qonc = 1 /\ ev.qsub = 1 /\ ev.ponc = 1 /\ ev.psub = 1 /\ ev.pinf = 0
 
+(***************************************************************************)
+(* The verification pipeline as observed step by step (wrappers on         *)
+(* KeyValidate, pubkey_to_G1, signature_to_G2, subgroup_check, hash_to_G2, *)
+(* pairing, final_exponentiate):  a pairing is evaluated ONLY AFTER the    *)
+(* points it receives were validated --                                    *)
+(*   its G1 argument is +-G1 or +-(a key that KeyValidate accepted before),*)
+(*   its G2 argument is a hash point or the signature point that           *)
+(*   subgroup_check accepted before --                                     *)
+(* and TRUE is returned only after a final exponentiation that follows     *)
+(* at least two pairings.  The ORDER of the validation steps among         *)
+(* themselves is deliberately not constrained.                             *)
+(***************************************************************************)
+PipelineOK(r) ==
+  LET stp == r.steps IN
+  /\ \A j \in 1..Len(stp) :
+        stp[j].k = "pair" =>
+          /\ stp[j].psrc \in {"g1", "pk"} /\ stp[j].qsrc \in {"sig", "hash"}
+          /\ (stp[j].psrc = "pk" => \E m \in 1..(j - 1) : stp[m].k = "kv" /\ stp[m].pk = stp[j].pk /\ stp[m].res = 1)
+          /\ (stp[j].qsrc = "sig" => \E m \in 1..(j - 1) : stp[m].k = "ssub" /\ stp[m].pt = stp[j].q /\ stp[m].res = 1)
+  /\ ((r.got = 1 /\ r.sc.entry # "KeyValidate") =>
+        \E f \in 1..Len(stp) : /\ stp[f].k = "fe"
+                              /\ Cardinality({j \in 1..(f - 1) : stp[j].k = "pair"}) >= 2
+                              /\ \A j \in (f + 1)..Len(stp) : stp[j].k # "pair")
+
 Flat(ds) == IF ds = <<>> THEN <<>> ELSE FoldLeft(LAMBDA acc, d : acc \o d, <<>>, ds)
 
 RowOK(r) ==
   CASE r.op = "run" -> /\ r.raised = 0                                      \* total: never raises
                        /\ r.got = B2N(Predict(r.sc))
                        /\ \A k \in 1..Len(r.pair) : PairSafe(r.pair[k])      \* no pairing on unsafe points
+                       /\ (r.stepsok = 1 => PipelineOK(r))                    \* ... and only after validation
                        /\ ((r.got = 1 /\ r.sc.entry # "KeyValidate") => Len(r.pair) >= 2)   \* acceptance rests on the pairing equation
     [] r.op = "sk"  -> IF SkAccepted(r.cls) THEN r.raised = 0 /\ r.ok = 1
                        ELSE r.raised = 1
